@@ -22,6 +22,11 @@ def tasks(ctx):
                                                                   "(*cpu.CPU).rst$1", "(*cpu.CPU).push$1", "(*cpu.CPU).ei", "(*cpu.CPU).di", "(*cpu.CPU).reti"]))
     # no-dispatch + DI/RETI: the frame aspect of every opcode lemma
     ts += [cc.opcode_task("C04", ch, i) for i, ch in enumerate(cc.opcode_chunks(16))]
+    # "otherwise no dispatch happens and IF is untouched" also at the boundary where a halted CPU wakes up: with IME clear nothing
+    # is dispatched, with IME set the dispatch is the documented one (the wake-up clauses of the HALT lemmas)
+    t = LemmaTask("lemma:halt", cc.halt_lemmas, ["(*cpu.CPU).checkInterrupts", "(*cpu.CPU).handleInterrupt", "(*cpu.CPU).next"])
+    t.keep = lambda name: "halt-wake" in name or "canary" in name
+    ts.append(t)
     return filter_tasks(ts)
 
 
